@@ -159,12 +159,16 @@ class CollideGen:
             outs = ['gen/ver.h', 'gen/ver.c', 'gen/ver.txt'][:rng.randint(2,
                                                                           3)]
             proj.files['ver.in'] = 'v\n'
+            # sometimes a step that always runs (a phony target for Make)
+            always = True if rng.random() < 0.3 else None
             main.append(G.Stmt('build_step', G.call(
                 'build_step', outs, cmd=['simtool', '--in',
                                          G.Raw('build_step.input'), '--out',
                                          G.Raw('build_step.output')],
-                files=['ver.in']), 'gen'))
+                files=['ver.in'], always_outdated=always), 'gen'))
             proj.features.add('multi_output_step')
+            if always:
+                proj.features.add('always_outdated_step')
             if rng.random() < 0.4 and not extra_conflict:
                 # ... and a later step that names one of them again
                 clash = rng.choice(outs)
@@ -181,6 +185,19 @@ class CollideGen:
                         files=['other.in']), 'again'))
                 extra_conflict = 'output-named-twice'
                 proj.features.add('step_output_clash')
+        if backend != 'msbuild' and rng.random() < 0.12:
+            # a command (phony: it writes no file) ...
+            cname = rng.choice(['docs', 'gen/run', 'x'])
+            main.append(G.Stmt('command', G.call(
+                'command', cname, cmd=['simtool', '--arg', 'x']), 'cmd0'))
+            proj.features.add('command')
+            if rng.random() < 0.5 and not extra_conflict:
+                # ... and a file output of the same name
+                proj.files['other2.in'] = 'o\n'
+                main.append(G.Stmt('copy_file', G.call(
+                    'copy_file', cname, 'other2.in'), 'again2'))
+                extra_conflict = 'output-named-twice'
+                proj.features.add('phony_file_clash')
         if rng.random() < 0.3:
             a = rng.choice(['data', 'aa', 'io'])
             b = rng.choice(['other', 'bb', 'ui'])
